@@ -78,7 +78,7 @@ def next_of(der, m, d):
 # ---------------------------------------------------------------------------------------------
 # generation
 
-VK = ["ref", "cref", "ptr", "sp", "csp", "vp", "cvp", "vsp", "cvsp"]
+VK = ["ref", "cref", "ptr", "sp", "csp", "vp", "cvp", "vsp", "cvsp", "vpc", "vspc"]  # ..c: pointers to const
 
 
 def gen_graph(rng, n):
@@ -171,6 +171,7 @@ def method_ptype(kind, cls, policy_arg):
         "sp": "virtual_<std::shared_ptr<%s>>" % C, "csp": "virtual_<const std::shared_ptr<%s>&>" % C,
         "vp": "virtual_ptr<%s%s>" % (C, pa), "cvp": "const virtual_ptr<%s%s>&" % (C, pa),
         "vsp": "virtual_shared_ptr<%s%s>" % (C, pa), "cvsp": "const virtual_shared_ptr<%s%s>&" % (C, pa),
+        "vpc": "virtual_ptr<const %s%s>" % (C, pa), "vspc": "virtual_shared_ptr<const %s%s>" % (C, pa),
     }[kind]
 
 
@@ -182,6 +183,7 @@ def def_ptype(kind, cls, policy_arg):
         "sp": "std::shared_ptr<%s>" % C, "csp": "const std::shared_ptr<%s>&" % C,
         "vp": "virtual_ptr<%s%s>" % (C, pa), "cvp": "const virtual_ptr<%s%s>&" % (C, pa),
         "vsp": "virtual_shared_ptr<%s%s>" % (C, pa), "cvsp": "const virtual_shared_ptr<%s%s>&" % (C, pa),
+        "vpc": "virtual_ptr<const %s%s>" % (C, pa), "vspc": "virtual_shared_ptr<const %s%s>" % (C, pa),
     }[kind]
 
 
@@ -311,7 +313,7 @@ def emit(r, rng, name, policy, reg_style, flavours, leave_out=None):
                 ptypes.append(t)
         m["ptypes"] = ptypes
         key = "K%d" % mi
-        if pol and m["api"] == "macro" and any(k in ("vp", "cvp", "vsp", "cvsp") for k in m["kinds"]):
+        if pol and m["api"] == "macro" and any(k in ("vp", "cvp", "vsp", "cvsp", "vpc", "vspc") for k in m["kinds"]):
             m["api"] = "class"  # a type with a comma cannot be passed to the macros
         if m["api"] == "macro":
             L.append("declare_method(int, meth%d, (%s)%s);" % (mi, ", ".join(ptypes), polsuffix))
@@ -350,14 +352,14 @@ def emit(r, rng, name, policy, reg_style, flavours, leave_out=None):
                 if p in m["positions"]:
                     k = m["kinds"][vi]
                     acc = {"ref": "&a%d", "cref": "&a%d", "ptr": "a%d", "sp": "a%d.get()", "csp": "a%d.get()", "vp": "&*a%d", "cvp": "&*a%d",
-                           "vsp": "a%d.get().get()", "cvsp": "a%d.get().get()"}[k] % p
+                           "vsp": "a%d.get().get()", "cvsp": "a%d.get().get()", "vpc": "&*a%d", "vspc": "a%d.get().get()"}[k] % p
                     probe.append("    g_seen[%d] = (const void*)%s;" % (vi, acc))
-                    if k in ("vp", "cvp"):
+                    if k in ("vp", "cvp", "vpc"):
                         # the pointer handed to the definition must carry the v-table of the pointee's
                         # dynamic class (what a pointer built from a plain reference carries)
-                        probe.append("    g_vptr_ok[%d] = a%d._vptr() == virtual_ptr<%s%s>(*a%d)._vptr();" % (vi, p, cname(d[vi]), (", " + pol) if pol else "", p))
-                    elif k in ("vsp", "cvsp"):
-                        probe.append("    g_vptr_ok[%d] = a%d._vptr() == virtual_ptr<%s%s>(*a%d.get())._vptr();" % (vi, p, cname(d[vi]), (", " + pol) if pol else "", p))
+                        probe.append("    g_vptr_ok[%d] = a%d._vptr() == virtual_ptr<%s%s%s>(*a%d)._vptr();" % (vi, p, "const " if k == "vpc" else "", cname(d[vi]), (", " + pol) if pol else "", p))
+                    elif k in ("vsp", "cvsp", "vspc"):
+                        probe.append("    g_vptr_ok[%d] = a%d._vptr() == virtual_ptr<%s%s%s>(*a%d.get())._vptr();" % (vi, p, "const " if k == "vspc" else "", cname(d[vi]), (", " + pol) if pol else "", p))
                     else:
                         probe.append("    g_vptr_ok[%d] = true;" % vi)
                     vi += 1
@@ -464,6 +466,29 @@ def emit(r, rng, name, policy, reg_style, flavours, leave_out=None):
                     elif k in ("sp", "csp"):
                         pre.append("        std::shared_ptr<%s> s_%d = so%d;" % (B, vi, c))
                         args.append("s_%d" % vi)
+                    elif k == "vpc":
+                        how = rng.choice(["const-base-ref", "const-exact", "from-non-const", "final"] if c == m["vp"][vi] else ["const-base-ref", "const-exact", "from-non-const"])
+                        if how == "const-base-ref":
+                            pre.append("        virtual_ptr<const %s%s> v_%d(static_cast<const %s&>(o%d));" % (B, pa, vi, B, c))
+                        elif how == "const-exact":
+                            pre.append("        const %s& co_%d = o%d; virtual_ptr<const %s%s> v_%d(co_%d);" % (cname(c), vi, c, B, pa, vi, vi))
+                        elif how == "final":
+                            pre.append("        const %s& co_%d = o%d; auto v_%d = virtual_ptr<const %s%s>::final(co_%d);" % (cname(c), vi, c, vi, B, pa, vi))
+                        else:
+                            pre.append("        virtual_ptr<%s%s> w_%d(o%d); virtual_ptr<const %s%s> v_%d(w_%d);" % (cname(c), pa, vi, c, B, pa, vi, vi))
+                        args.append("v_%d" % vi)
+                    elif k == "vspc":
+                        how = rng.choice(["const-base-sp", "const-exact-sp", "from-non-const", "make_virtual_shared"])
+                        if how == "const-base-sp":
+                            pre.append("        std::shared_ptr<const %s> s_%d = so%d; virtual_shared_ptr<const %s%s> v_%d(s_%d);" % (B, vi, c, B, pa, vi, vi))
+                        elif how == "const-exact-sp":
+                            pre.append("        std::shared_ptr<const %s> s_%d = so%d; virtual_shared_ptr<const %s%s> v_%d(s_%d);" % (cname(c), vi, c, B, pa, vi, vi))
+                        elif how == "make_virtual_shared":
+                            pre.append("        auto mk_%d = make_virtual_shared<const %s%s>(); virtual_shared_ptr<const %s%s> v_%d(mk_%d);" % (vi, cname(c), pa, B, pa, vi, vi))
+                            objexpr[vi] = "const_cast<%s*>(mk_%d.get().get())" % (cname(c), vi)
+                        else:
+                            pre.append("        virtual_shared_ptr<%s%s> w_%d(so%d); virtual_shared_ptr<const %s%s> v_%d(w_%d);" % (cname(c), pa, vi, c, B, pa, vi, vi))
+                        args.append("v_%d" % vi)
                     elif k in ("vp", "cvp"):
                         how = rng.choice(["base-ref", "exact", "copy", "conv", "final_virtual_ptr"] + (["final"] if c == m["vp"][vi] else []) + ([] if pol else ["deduction-guide"]))
                         if how == "final_virtual_ptr":
@@ -511,7 +536,7 @@ def emit(r, rng, name, policy, reg_style, flavours, leave_out=None):
                 for i in range(ar):
                     main.append('        CHECK(st != 0 || g_seen[%d] == (const void*)static_cast<%s*>(%s), "C11:wrong-object:%s:generated-hierarchy", "%s: virtual argument %d is not the caller\'s object viewed as %s");' % (i, cname(m["defs"][d][i]), objexpr[i], m["kinds"][i], tdesc, i, cname(m["defs"][d][i])))
                 for i in range(ar):
-                    if m["kinds"][i] in ("vp", "cvp", "vsp", "cvsp"):
+                    if m["kinds"][i] in ("vp", "cvp", "vsp", "cvsp", "vpc", "vspc"):
                         main.append('        CHECK(st != 0 || g_vptr_ok[%d], "C09:virtual_ptr-received-by-definition-carries-foreign-vtable:%s", "%s: the virtual_ptr passed to the definition for virtual argument %d does not carry the v-table of the pointee\'s class (a call through it would not run what a plain reference runs)");' % (i, m["kinds"][i], tdesc, i))
                 nx = next_of(der, m, d)
                 if nx[0] == "DEF":
@@ -560,6 +585,12 @@ def emit(r, rng, name, policy, reg_style, flavours, leave_out=None):
                         elif k in ("sp", "csp"):
                             pre.append("            std::shared_ptr<%s> s_%d = so%d;" % (B, vi, c))
                             args.append("s_%d" % vi)
+                        elif k == "vpc":
+                            pre.append("            virtual_ptr<const %s%s> v_%d(static_cast<const %s&>(o%d));" % (B, pa, vi, B, c))
+                            args.append("v_%d" % vi)
+                        elif k == "vspc":
+                            pre.append("            std::shared_ptr<const %s> s_%d = so%d; virtual_shared_ptr<const %s%s> v_%d(s_%d);" % (B, vi, c, B, pa, vi, vi))
+                            args.append("v_%d" % vi)
                         elif k in ("vp", "cvp"):
                             how = rng.choice(["base-ref", "exact", "final", "final_virtual_ptr"]) if c == leave_out else "base-ref"
                             if how == "final":
